@@ -267,10 +267,55 @@ class Ev:
             # a class-level expression refers to earlier class-level names by their bare name
             c_, v_ = self.repo.find_attr(self.self_cls, n.id)
             if v_ is not None and self.depth < 12:
+                if self.class_env(c_) is not None:
+                    return self.class_attr(c_, n.id)
                 return self._mk(c_.mod, self_cls=c_, depth=self.depth + 1).ev(v_)
         raise Unknown("name %s" % n.id)
 
+    def class_env(self, ci):
+        """A class body that is more than a list of `NAME = expr` lines (a loop filling a table, `del`, item stores) is
+        executed statement by statement; names a statement that does not fold may have touched are poisoned."""
+        simple = (ast.FunctionDef, ast.AsyncFunctionDef, ast.ClassDef, ast.Pass, ast.AnnAssign)
+        if all(isinstance(st, simple) or isinstance(st, ast.Expr) and isinstance(st.value, ast.Constant)
+               or isinstance(st, ast.Assign) and all(isinstance(t, ast.Name) for t in st.targets) for st in ci.node.body):
+            return None
+        cache = self.repo.__dict__.setdefault("_class_env", {})
+        if id(ci) in cache:
+            return cache[id(ci)]
+        cache[id(ci)] = ({}, {x.id for x in ast.walk(ci.node) if isinstance(x, ast.Name)})     # (re-entrancy: nothing known)
+        sub = self._mk(ci.mod, {}, None, self.depth + 1)
+        poisoned = set()
+        for st in ci.node.body:
+            if isinstance(st, (ast.FunctionDef, ast.AsyncFunctionDef, ast.ClassDef)):
+                continue
+            names = {x.id for x in ast.walk(st) if isinstance(x, ast.Name)}
+            try:
+                if names & poisoned:
+                    raise Unknown("poisoned")
+                r = sub.run_stmt(st)
+                if r is not _FALL:
+                    raise Unknown("class body control flow")
+            except (Unknown, Raised, RecursionError):
+                poisoned |= names
+                for k in names:
+                    sub.env.pop(k, None)
+        cache[id(ci)] = (sub.env, poisoned)
+        return cache[id(ci)]
+
     def class_attr(self, ci, attr):
+        import copy
+        for c_ in self.repo.mro(ci):
+            ce = self.class_env(c_)
+            if ce is None:
+                if attr in c_.attrs or attr in c_.methods:
+                    break
+                continue
+            if attr in ce[1]:
+                raise Unknown("class attr %s.%s (class body statement does not fold)" % (c_.name, attr))
+            if attr in ce[0]:
+                return copy.deepcopy(ce[0][attr])
+            if attr in c_.attrs or attr in c_.methods:
+                break
         c, v = self.repo.find_attr(ci, attr)
         if v is not None:
             return self._mk(c.mod, self_cls=c, depth=self.depth + 1).ev(v)
